@@ -5,7 +5,7 @@ import itertools
 from ..absint import FlagEval, TOP
 from ..cfg import CFG, handler_admits, EXC
 from ..dataflow import reaching_defs, PARAM
-from ..model import walk_shallow, call_name, is_self_attr, dotted_name
+from ..model import walk_shallow, call_name, is_self_attr, dotted_name, ancestors
 from ..util import (has_call, find_calls, assigned_value, const_str, unparse, kw, arg_or_kw, enclosing_stmt,
                     control_ancestors, guards_of, call_tail)
 from .. import mutate as M
@@ -46,8 +46,33 @@ def run(ctx):
     r13_evaluators_hold_no_generator(ctx)
     # an evaluation writes only into its own copies: an in-memory / materialised environment hands the SAME dicts to the next triple
     c04.r3_copy_before_mutate(ctx, rule="C03.R14", only={"SequentialCB", "SequentialIGL", "RejectionCB"})
+    r15_unwritable_rows(ctx)
     ctx.rules["C03.R14"] = ("freshness analysis of the evaluators' read loops (incl. the reader SequentialIGL defines locally): an in-place mutation never targets an interaction "
                             "borrowed from the environment -- otherwise the next triple on a materialised environment sees the rewritten interactions")
+
+
+def r15_unwritable_rows(ctx, rule="C03.R15"):
+    """ProcessTasks contains what an evaluation raises; what it RETURNS is written by TransactionEncode in the main pipeline.  Rows that cannot be written (not mappings,
+    a value json has no form for, e.g. a set in learning_info) must cost that triple only -- outside a handler the exception ends the pipeline and every later triple."""
+    ctx.rule(rule, "TransactionEncode.filter builds the record of an evaluation (the T4 arm) inside `try ... except Exception` whose handler reports to the log and goes on to the "
+                   "next item (no raise / return / break), and yields the record outside the handler")
+    RES_ = "coba/results/core.py"
+    enc = ctx.fn(RES_, "TransactionEncode.filter")
+    arms = [x for x in ast.walk(enc) if isinstance(x, ast.If) and any(isinstance(k, ast.Constant) and k.value == "T4" for k in ast.walk(x.test))]
+    ctx.floor(rule, "T4 arm in TransactionEncode.filter", len(arms), 1)
+    for arm in arms[:1]:
+        calls = [c for st in arm.body for c in ast.walk(st) if isinstance(c, ast.Call) and isinstance(c.func, ast.Name) and c.func.id != "str" and any(isinstance(a, (ast.List, ast.Tuple)) and a.elts and const_str(a.elts[0]) == "I" for a in c.args)]
+        ctx.floor(rule, "record constructions in the T4 arm", len(calls), 1)
+        for c in calls:
+            tries = [t for t in ancestors(c) if isinstance(t, ast.Try) and any(c in list(ast.walk(b)) for b in t.body)]
+            ok = False
+            for t in tries:
+                for h in t.handlers:
+                    wide = h.type is not None and unparse(h.type) == "Exception"
+                    logs = any(isinstance(k, ast.Call) and unparse(k.func) == "CobaContext.logger.log" for x in h.body for k in ast.walk(x))
+                    leaves = any(isinstance(x, (ast.Raise, ast.Return, ast.Break)) for b_ in h.body for x in ast.walk(b_))
+                    ok = ok or (wide and logs and not leaves)
+            ctx.ob(rule, RES_, "TransactionEncode.filter", c, "the record of one evaluation is built inside a handler that reports the failure and goes on", ok)
 
 
 def evaluate_calls(fn):
@@ -630,6 +655,8 @@ def _class_cache(tree):
 
 
 CONTROLS = [
+    ("rows that cannot be written end the whole experiment", "coba/results/core.py", M.replace_stmt("TransactionEncode.filter", lambda st: isinstance(st, ast.Try),
+        "yield encoder(['I', item[1], {'_packed': {str(k): [r.get(k) for r in item[2]] for k in sorted(set().union(*[r.keys() for r in item[2]]), key=str)}}])"), "C03.R15"),
     ("IGL reader rewrites the environment's own interactions", SEQ, M.replace_stmt("SequentialIGL.evaluate", M.simple_has("new = interaction.copy()"), "new = interaction"), "C03.R14"),
     ("RejectionCB no longer clears learning_info on entry", SEQ, _no_entry_clear, "C03.R11"),
     ("chunk-local copy flag", PROC, M.insert_after("ChunkTasks._chunks", M.text_has("chunk_sorter ="), "for c in chunks.values():\n    for t in c: t.copy = False"), "C03.R12"),
